@@ -405,6 +405,25 @@ VARIANTS = [
         {"file": LOGR, "old": "    def set_paused(self, paused: bool):\n        self.paused = paused\n",
          "new": "    def set_paused(self, paused: bool):\n        self.paused = paused\n\n"
                 "    def _visible(self, entry):\n        return entry is not None\n"}]},
+    # ---- round 4 mechanisms
+    {"name": "R8 freeze swallows a pickling failure and still drops the live message", "file": LOGR, "expect": "C18.R8",
+     "old": "            self._frozen_message = pickle.dumps(self._message, protocol=pickle.HIGHEST_PROTOCOL)\n        finally:",
+     "new": "            self._frozen_message = pickle.dumps(self._message, protocol=pickle.HIGHEST_PROTOCOL)\n"
+            "        except Exception:\n            LOG.exception('could not freeze message')\n        finally:"},
+    {"name": "R8 live message dropped before it is pickled from the local", "file": LOGR, "expect": "C18.R8",
+     "old": "        message.deserializer = None\n        try:\n            self._frozen_message = pickle.dumps(self._message, protocol=pickle.HIGHEST_PROTOCOL)",
+     "new": "        message.deserializer = None\n        self._message = None\n        try:\n            self._frozen_message = pickle.dumps(message, protocol=pickle.HIGHEST_PROTOCOL)"},
+    {"name": "P R8 pickled into a local, stored and released after the finally", "file": LOGR, "expect": "silent",
+     "old": "            self._frozen_message = pickle.dumps(self._message, protocol=pickle.HIGHEST_PROTOCOL)\n        finally:\n"
+            "            message.deserializer = self._deserializer\n        self._message = None",
+     "new": "            pickled = pickle.dumps(self._message, protocol=pickle.HIGHEST_PROTOCOL)\n        finally:\n"
+            "            message.deserializer = self._deserializer\n        self._frozen_message = pickled\n        self._message = None"},
+    {"name": "R5 filter evaluated before the entry is retained", "file": LOGR, "expect": "C18.R5",
+     "old": "            self._raw_entries.append(entry)\n            if self.filter.match(entry):",
+     "new": "            visible = self.filter.match(entry)\n            self._raw_entries.append(entry)\n            if visible:"},
+    {"name": "P R5 filter verdict kept in a local after retaining the entry", "file": LOGR, "expect": "silent",
+     "old": "            self._raw_entries.append(entry)\n            if self.filter.match(entry):",
+     "new": "            self._raw_entries.append(entry)\n            visible = self.filter.match(entry)\n            if visible:"},
     # ---- documented limits
     {"name": "X bare selector matches on the raw value instead of truthiness", "file": LOGR, "expect": "miss",
      "old": "                return bool(val)\n", "new": "                return val is not None\n"},
